@@ -44,8 +44,11 @@ where
               *r = Some(x);
             }
           }
-          if let Some(x) = &*result_next.read().unwrap() {
-            sctl_next.sink_next(x.clone());
+          // copy the value out: downstream must not be called with the lock held
+          // (a callback that feeds this pipeline again would deadlock on it)
+          let x = result_next.read().unwrap().clone();
+          if let Some(x) = x {
+            sctl_next.sink_next(x);
           }
         },
         move |_, e| {
